@@ -342,7 +342,14 @@ func runCase(h *hx.T, tput int, bud int64, tick time.Duration, posters []poster,
 	mailbox.VerifYield = c.yield
 	mb := producer().(*mailbox.SmoothFrameMailbox)
 	mb.RegisterHandlers(c, c)
-	mb.VerifSplitUserPop() // yield point "uq.empty" between an empty Pop of the user queue and run()'s return
+	// yield point "uq.empty" between an empty Pop of the user queue and run()'s return: a wrapper installed by TYPE
+	// (userqueue_test.go; no unexported identifier of the mailbox package is named); false = degraded mode
+	split := splitUserPop(mb)
+	if split {
+		h.Count("whitebox=available")
+	} else {
+		h.Count("whitebox=unavailable")
+	}
 	c.mb = mb
 	c.startConsumer()
 	// b = the argument of mailbox.Producer (ms; 0 = default), tick = ns of virtual time that pass before every granted step
@@ -489,6 +496,17 @@ func runCase(h *hx.T, tput int, bud int64, tick time.Duration, posters []poster,
 			}
 		}
 		h.Count("pt." + th.kind + "." + pt)
+		if !split && th.kind == "c" && pt == "run.popu" && inv == "-" && esc == "-" && th.parked && th.point == "pm.idle" {
+			// degraded mode (no wrapper around the user queue): the Pop was empty and run() has returned; nothing shared
+			// is touched in between, so the model's "ret" program point is reported and left again by a stutter step
+			real := th.point
+			th.point = "uq.empty"
+			h.Emit(op, c.state(inv, esc))
+			th.point = real
+			h.Count("pt.c.uq.empty")
+			h.Emit("step k=c pt=uq.empty th="+th.name, c.state("-", "-"))
+			continue
+		}
 		h.Emit(op, c.state(inv, esc))
 	}
 	st, um, sm, susp, paused := mb.VerifState()
